@@ -812,3 +812,33 @@ Section TotalityJitter.
     - discriminate.
   Qed.
 End TotalityJitter.
+
+(* ---- the same through backoff_iter ------------------------------------------------------------ *)
+Section TotalityIter.
+  Context {F : Type} (fo : fops F) (OL : order_laws fo) (GL : grow_laws fo).
+
+  Lemma run_iter_default_not_fuel_draws : forall start stop factor j take fuel draws,
+    valid fo start stop factor = true ->
+    default_count fo fuel stop factor start 1 <> DCFuel ->
+    (default_len fo fuel start stop factor <= length draws)%nat -> (take <= length draws)%nat ->
+    o_end (run fo (mkP ApiIter start stop CNone factor j take) fuel draws) <> EFuel.
+  Proof.
+    intros start stop factor j take fuel draws V D L T.
+    unfold run. cbn [p_api p_start p_stop p_count p_factor p_jitter p_take].
+    destruct take as [|t]; [discriminate|].
+    rewrite (prepare_valid fo OL fuel start stop factor CNone j V).
+    unfold default_len in L.
+    destruct (default_count fo fuel stop factor start 1) as [m| |]; [| |congruence].
+    - unfold after_count. destruct (count_neg (NFin m)); [discriminate|].
+      destruct (jitter_valid fo j); [|discriminate].
+      destruct (Z.leb (Z.of_nat (S t)) m); unfold produce; cbn [p_start p_stop p_factor p_jitter].
+      + pose proof (gen_loop_enough fo (S t) (negb (jitter_off fo j)) j stop factor start draws T) as G.
+        destruct (gen_loop fo (S t) (negb (jitter_off fo j)) j stop factor start draws);
+          [discriminate|congruence].
+      + pose proof (gen_loop_enough fo (Z.to_nat m) (negb (jitter_off fo j)) j stop factor start draws L) as G.
+        destruct (gen_loop fo (Z.to_nat m) (negb (jitter_off fo j)) j stop factor start draws);
+          [discriminate|congruence].
+    - discriminate.
+  Qed.
+End TotalityIter.
+
